@@ -18,6 +18,10 @@ def correspond(ctx):
     _sched.run(ctx, PROP, GEN, RULE, 1500, 25000)
     # jobs taken back from an earlier run (exit code not retrievable): final states must stay truthful
     _sched.restart_part(ctx, PROP, ctx.scale(300, 3000))
+    # state that survives from one experiment to the next in one interpreter (token objects, event loops): real scheduler,
+    # real job processes; every job of the second experiment must become final and wait() must return (shared with C09)
+    from . import c09files
+    c09files.sequential_experiments_scenario(ctx)
 
 
 def search(ctx):
